@@ -243,6 +243,47 @@ def expected_ts(ts):
     return int(float(ts) * 1000) / 1000
 
 
+def independent_ms(ts):
+    """the exposed timestamp in milliseconds as an exact rational, computed WITHOUT the library's expression
+    `int(float(ts) * 1000)`: ints (ts * 1000), Timestamp objects (sec * 1000 + signed nsec / 10**6), floats whose repr has at
+    most three fractional digits (Decimal(repr) * 1000).  None where no exact independent value is available."""
+    from decimal import Decimal
+    from fractions import Fraction
+    from prometheus_client.samples import Timestamp
+    if ts is None or isinstance(ts, bool):
+        return None
+    if isinstance(ts, int):
+        ms = Fraction(ts) * 1000
+    elif isinstance(ts, Timestamp):
+        ms = Fraction(ts.sec) * 1000 + Fraction(ts.nsec, 10 ** 6)
+    elif isinstance(ts, float):
+        if ts != ts or ts in (math.inf, -math.inf):
+            return None
+        r = repr(ts)
+        if 'e' in r or 'E' in r or len(r.partition('.')[2]) > 3:
+            return None
+        ms = Fraction(Decimal(r)) * 1000
+    else:
+        return None
+    return ms if abs(ms) < 2 ** 53 else None
+
+
+def independent_ts_ok(ts, parsed):
+    """"to the millisecond", judged against the independent value: the parsed timestamp (seconds) lies less than one
+    millisecond from the exposed instant and is a whole number of milliseconds away from zero in the same direction
+    (the exposition truncates, so 1.001 s may legitimately come back as 1.0 s, never as 1.002 s or 1001 s)"""
+    from fractions import Fraction
+    ms = independent_ms(ts)
+    if ms is None:
+        return None
+    if parsed is None or isinstance(parsed, bool) or not isinstance(parsed, (int, float)) or parsed != parsed:
+        return False
+    got = Fraction(parsed) * 1000
+    eps = Fraction(1, 10 ** 6)
+    d = (ms - got) if ms >= 0 else (got - ms)      # how far the parsed instant lies towards zero from the exposed one
+    return -eps <= d <= 1 + eps
+
+
 def same_ts(parsed, exp):
     if parsed is None or exp is None:
         return parsed is None and exp is None
@@ -289,6 +330,61 @@ def bad_label_source(spec, metrics, legacy):
     return None
 
 
+def is_bad_label(k, legacy):
+    return k.startswith('__') or (legacy and not LEG_LABEL.fullmatch(k))
+
+
+def rename_bad_labels(metrics, legacy):
+    """copies of the families with every label name the library's own rule rejects replaced by a benign legacy name
+    (everything else — names, values, label values, time stamps, order — kept)"""
+    import copy
+    used = {k for m in metrics for s in m.samples for k in s.labels}
+    ren = {}
+    out = []
+    for m in metrics:
+        m2 = copy.copy(m)
+        m2.samples = []
+        for s in m.samples:
+            labels = {}
+            for k, v in s.labels.items():
+                if is_bad_label(k, legacy):
+                    if k not in ren:
+                        i = len(ren)
+                        while 'zzl%d' % i in used:
+                            i += 1000
+                        ren[k] = 'zzl%d' % i
+                        used.add(ren[k])
+                    k = ren[k]
+                labels[k] = v
+            m2.samples.append(s._replace(labels=labels))
+        out.append(m2)
+    return out, ren
+
+
+def f20_is_cause(metrics, legacy):
+    """counterfactual: with the rejected label names replaced by benign ones the same registry must pass the whole
+    oracle; only then is the rejected label name the cause of the failure.  -> (bool, failures of the renamed registry)"""
+    from prometheus_client import CollectorRegistry, exposition
+    from prometheus_client import validation as V
+    renamed, ren = rename_bad_labels(metrics, legacy)
+    if not ren:
+        return False, []
+    legacy0 = V.get_legacy_validation()
+    c14text.set_legacy(V, legacy)
+    try:
+        reg = CollectorRegistry(auto_describe=False)
+        reg.register(_Coll(renamed))
+        try:
+            text = exposition.generate_latest(reg).decode('utf-8')
+        except Exception as e:  # noqa
+            return False, [('expose-raises-' + type(e).__name__, 'after renaming the rejected label names generate_latest raised %s' % type(e).__name__)]
+    finally:
+        c14text.set_legacy(V, legacy0)
+    outcome = c14text.real_parse(text, legacy, limit=5.0)
+    rest = [(c, w) for c, w in oracle(renamed, outcome) if not c.startswith('~')]
+    return (not rest), rest
+
+
 def show_sample(name, labels, value, ts):
     return '%r %r %r ts=%r' % (name, dict(labels), value, ts)
 
@@ -332,6 +428,9 @@ def oracle(metrics, outcome):
                 break
             if not same_ts(g.timestamp, ets):
                 fails.append(('timestamp', what))
+                break
+            if independent_ts_ok(e.timestamp, g.timestamp) is False:
+                fails.append(('timestamp-independent', what + ' — independently computed instant: %s ms' % independent_ms(e.timestamp)))
                 break
     exp, all_regular = expected_families(metrics)
     wires = wire_names(metrics)
@@ -397,14 +496,22 @@ def evaluate(spec):
     if raw:
         f2 = f2_names(metrics)
         bad = None if f2 else bad_label_source(spec, metrics, legacy)
-        for c, w in raw:
-            if f2:
+        cause, rest = f20_is_cause(metrics, legacy) if bad else (False, [])
+        if f2:
+            for c, w in raw:
                 fails.append(('C03:name-trailing-newline', '%s; the input has the %s name %r (matches the legacy pattern because `$` '
                               'accepts a final newline) — %s' % (c, f2[0][0], f2[0][1], w)))
-            elif bad:
+        elif bad and cause:
+            # the known finding, confirmed by the counterfactual: the same registry with benign label names round-trips
+            for c, w in raw:
                 fails.append(('C03:label-name-unvalidated:' + bad, '%s; a label name the library rejects elsewhere was exposed without '
-                              'validation — %s' % (c, w)))
-            else:
+                              'validation (with that name replaced by a benign one the registry round-trips) — %s' % (c, w)))
+        elif bad:
+            # a rejected label name is present but NOT the (only) cause: report what still fails without it
+            for c, w in rest:
+                fails.append(('C03:' + c, 'persists after replacing the rejected label names by benign ones — %s' % w))
+        else:
+            for c, w in raw:
                 fails.append(('C03:' + c, w))
     return {'metrics': metrics, 'text': text, 'outcome': outcome, 'fails': fails, 'famlevel': famlevel[0] if famlevel else 'not-reached'}
 
